@@ -563,3 +563,17 @@ def stuck(sim, cyc, limit=20000):
         sim._wd = (sim.nev, cyc)
         return False
     return cyc - w[1] > limit
+
+
+class StallCounter:
+    """Reach probe: counts the cycles in which `valid` is high and `ready` is low on one handshake (back-pressure actually applied)."""
+
+    def __init__(self, sim, valid, ready, domain="sys"):
+        self.iv, self.ir = sim.index(valid), sim.index(ready)
+        self.n = 0
+        sim.add_agent(domain, self)
+
+    def __call__(self, sim):
+        S = sim.S
+        if S[self.iv] and not S[self.ir]:
+            self.n += 1
